@@ -158,7 +158,7 @@ PROPS["C17"] = {
 PROPS["C04"] = {
     "props": ["OsmVerif.Props.C04"],
     "gens": ["Schema"],
-    "required_theorems": ["names_eq_osm_xml", "marshal_names_decodable", "marshal_covers_all_collections", "block_names_decodable",
+    "required_theorems": ["names_eq_osm_xml", "marshal_names_decodable", "marshal_covers_all_collections", "block_names_decodable", "marshal_guards",
                           "attrs_roundtrip", "codec_attr_names_distinct"],
     "technique": "Lean 4 theorems over the struct-tag schema and custom-marshaler call lists regenerated from the source, interpreted with encoding/xml's naming rules (schema = pinned OSM XML vocabulary; every emitted element name is one the decoders accept); container shapes and attribute lists of the model compared with real xml.Marshal output; direct Marshal->Unmarshal and Marshal->Scanner round trips on generated values",
     "level_text": "Machine-checked proof over the schema regenerated from the source: every codec struct carries exactly the pinned OSM XML names (attributes, elements, omitempty, paths); every element name written by the custom container marshalers (OSM, osmChange blocks, diff actions, changeset discussion) - computed from the extracted Encode calls with encoding/xml's own-name rule (XMLName tag, else Go type name) - is one the OSM struct decodes and the streaming scanner dispatches on, and every collection is written; the attribute part of every record round-trips for all values (generic theorem over field tables with distinct attribute names, instantiated for all 27 codec structs). The reflection codec itself is not modelled: full-value round trips (Marshal->Unmarshal equality and Marshal->Scanner equality for Node, Way, Relation, Changeset, Note, User, Bounds, OSM, Change, Diff with every optional part toggled) are direct checks on the real code, and the model's container shapes and attribute lists are compared with real xml.Marshal output.",
@@ -173,7 +173,7 @@ PROPS["C03"] = {
     "props": ["OsmVerif.Props.C03"],
     "gens": ["Schema"],
     "required_theorems": ["names_eq_osm_xml", "unmarshal_attr_perm", "unmarshal_ignores_unknown", "scanner_cases_eq_osm_fields",
-                          "action_cases", "stream_eq_whole", "stream_only_known", "change_blocks_accumulate"],
+                          "action_cases", "stream_eq_whole", "stream_only_known", "change_blocks_accumulate", "scanner_decoder_default"],
     "technique": "Lean 4 theorems over the struct-tag schema and dispatch labels regenerated from the source (schema = pinned OSM XML vocabulary; attribute decoding independent of order and unknown attributes; scanner dispatch = OSM fields; per-kind stream = whole-document collections; osmChange blocks accumulate); documents from an independent XML writer decoded at once and by the streaming scanner and compared with the written values",
     "level_text": "Machine-checked proof over the schema regenerated from the source: every codec struct is decoded from exactly the pinned OSM XML names; the attribute decoder of every record type is independent of attribute order and ignores unknown attributes; the scanner dispatches on exactly the element names the OSM struct decodes, so per kind the streaming sequence equals the whole-document collection in document order, also across repeated and interleaved osmChange blocks. Tokenizer-level claims (entity escaping, whitespace, comments, self-closing tags) and the reflection decoder are trusted encoding/xml behaviour; they are exercised on every run by an independent XML writer (own vocabulary table) whose documents - all element kinds, optional attributes toggled, Unicode text, random layout, unknown attributes/elements, interleaved change blocks, diff actions - are decoded with xml.Unmarshal and with osmxml.Scanner and compared with the written values.",
     "level_note": "Trusted: Lean kernel; the fact extractor; encoding/xml; the pinned vocabulary (Spec/OsmSchemaPinned.lean) and the harness writer's own vocabulary. 'Unknown elements' = elements outside the OSM vocabulary whose whole subtree is outside it too (the scanner matches known names at any depth by design).",
